@@ -9,7 +9,7 @@
 #include "core.h"
 enum GCls { G_FIN = 0, G_PINF = 1, G_NINF = 2, G_ZOO = 3, G_NANV = 4, G_CPLX = 5, G_NONNUM = 6 };
 struct Infty;
-struct NaN_;
+struct NaN;
 struct Basic;
 typedef Basic Number;
 typedef Basic Boolean;
@@ -20,7 +20,7 @@ struct Basic {
   int cls;                  /* GCls */
   int v;                    /* G_FIN: 2*value ; otherwise a ghost discriminator */
   Infty *inf_;        /* the Infty payload when type_code_ == SYMENGINE_INFTY */
-  NaN_ *nan_;  /* the NaN payload when type_code_ == SYMENGINE_NOT_A_NUMBER */
+  NaN *nan_;  /* the NaN payload when type_code_ == SYMENGINE_NOT_A_NUMBER */
   bool bval;                /* BooleanAtom value */
   RCPBasic arg1, arg2;      /* relational operands */
   TypeID get_type_code() const { return type_code_; }
@@ -31,6 +31,7 @@ struct Basic {
   RCPBasic add(const Basic &o) const; RCPBasic div(const Basic &o) const; RCPBasic pow(const Basic &o) const;
   RCPBasic rsub(const Basic &o) const; RCPBasic rdiv(const Basic &o) const; RCPBasic rpow(const Basic &o) const;
   RCPBasic g_sub(const Basic &o) const; RCPBasic g_mul(const Basic &o) const;
+  RCPBasic number_sub(const Basic &o) const; RCPBasic number_rsub(const Basic &o) const; RCPBasic number_div(const Basic &o) const; RCPBasic number_rdiv(const Basic &o) const;
   bool get_val() const { return bval; }
   bool __eq__(const Basic &o) const { return id == o.id; }
   int __cmp__(const Basic &o) const { return id == o.id ? 0 : (id < o.id ? -1 : 1); }   /* assumed C02 contract */
@@ -48,7 +49,7 @@ struct Infty {
   RCPBasic add(const Number &other) const; RCPBasic mul(const Number &other) const; RCPBasic div(const Number &other) const;
   RCPBasic pow(const Number &other) const; RCPBasic rpow(const Number &other) const;
 };
-struct NaN_ { RCPBasic num_; RCPBasic rcp_from_this_cast_Number() const { return num_; }
+struct NaN { RCPBasic num_; RCPBasic rcp_from_this_cast_Number() const { return num_; }
   RCPBasic add(const Number &other) const; RCPBasic mul(const Number &other) const; RCPBasic div(const Number &other) const;
   RCPBasic pow(const Number &other) const; RCPBasic rpow(const Number &other) const; };
 
@@ -62,11 +63,11 @@ struct NaN_ { RCPBasic num_; RCPBasic rcp_from_this_cast_Number() const { return
 #define GPOOL (G_NCONST + G_REGION * G_NREGION)
 /* CBMC's C++ front end types a literal 0 assigned to a pointer as an integer address and then aborts
    (__CPROVER_memory): absent operands point at these dummies instead of being null */
-extern Basic g_none; extern Infty g_noinf; extern NaN_ g_nonan;
+extern Basic g_none; extern Infty g_noinf; extern NaN g_nonan;
 /* separate named objects, not an array: CBMC 6.11 aborts (__CPROVER_memory) on nested dereferences through a
    pointer to an array element of struct type with a symbolic index */
 #define G_OBJS(X) X(0) X(1) X(2) X(3) X(4) X(5) X(6) X(7) X(8) X(9) X(10) X(11) X(12) X(13) X(14) X(15) X(16) X(17) X(18) X(19) X(20) X(21) X(22) X(23) X(24) X(25) X(26) X(27) X(28) X(29) X(30) X(31) X(32) X(33) X(34) X(35) X(36) X(37) X(38) X(39) X(40) X(41) X(42) X(43) X(44) X(45) X(46) X(47) X(48) X(49) X(50) X(51) X(52) X(53) X(54) X(55) X(56) X(57) X(58) X(59) X(60) X(61) X(62) X(63) X(64) X(65) X(66) X(67) X(68) X(69) X(70) X(71) X(72) X(73) X(74) X(75)
-#define G_DECL(i) extern Basic gp##i; extern Infty gi##i; extern NaN_ gn##i;
+#define G_DECL(i) extern Basic gp##i; extern Infty gi##i; extern NaN gn##i;
 G_OBJS(G_DECL)
 extern unsigned gpool_n, gpool_end, gpool_base; extern int gfresh_id;
 inline Basic *g_obj(unsigned k)
@@ -133,7 +134,7 @@ G_IS_A(Infty, SYMENGINE_INFTY) G_IS_A(NaN, SYMENGINE_NOT_A_NUMBER) G_IS_A(Comple
 G_IS_A(ComplexDouble, SYMENGINE_COMPLEX_DOUBLE) G_IS_A(BooleanAtom, SYMENGINE_BOOLEAN_ATOM)
 G_IS_A(Integer, SYMENGINE_INTEGER) G_IS_A(Rational, SYMENGINE_RATIONAL) G_IS_A(RealDouble, SYMENGINE_REAL_DOUBLE)
 inline const Infty &as_Infty(const Basic &b) { return *b.inf_; }
-inline const NaN_ &as_NaN(const Basic &b) { return *b.nan_; }
+inline const NaN &as_NaN(const Basic &b) { return *b.nan_; }
 inline const Number &as_Number(const Basic &b) { return b; }
 
 /* ---- ghost predicates (assumed contracts of the per-class is_zero()... of the finite kinds;
@@ -180,9 +181,9 @@ inline int g_rank(const Basic &x) { return x.cls == G_PINF ? 1 : (x.cls == G_NIN
 inline bool g_le(const Basic &a, const Basic &b) { int ra = g_rank(a), rb = g_rank(b); return ra != rb ? ra < rb : (ra != 0 ? true : a.v <= b.v); }
 inline bool g_lt(const Basic &a, const Basic &b) { int ra = g_rank(a), rb = g_rank(b); return ra != rb ? ra < rb : (ra != 0 ? false : a.v < b.v); }
 
-#define G_DEF(i) Basic gp##i; Infty gi##i; NaN_ gn##i;
+#define G_DEF(i) Basic gp##i; Infty gi##i; NaN gn##i;
 #define GHOSTNUM_GLOBALS \
-  Basic g_none; Infty g_noinf; NaN_ g_nonan; unsigned gpool_n, gpool_end, gpool_base; int gfresh_id; G_OBJS(G_DEF) int verif_thrown; bool verif_may_throw; \
+  Basic g_none; Infty g_noinf; NaN g_nonan; unsigned gpool_n, gpool_end, gpool_base; int gfresh_id; G_OBJS(G_DEF) int verif_thrown; bool verif_may_throw; \
   RCPBasic Nan, zero, one, minus_one, ComplexInf, Inf, NegInf, boolTrue, boolFalse;
 /* the library's global constants */
 inline void g_init_constants()
